@@ -280,11 +280,25 @@ impl Valid {
         post: &Snap,
         rv_post: &Report,
     ) {
+        let kind = ctx.oprec.op.kind();
+        self.check_c08_as(ctx, kind, pre, rv_pre, out, post, rv_post);
+    }
+
+    #[allow(clippy::too_many_arguments)]
+    fn check_c08_as<K: SimKernel<D>, const D: usize>(
+        &self,
+        ctx: &mut StepCtx<'_, K, D>,
+        kind: &str,
+        pre: &Snap,
+        rv_pre: &Report,
+        out: &Outcome,
+        post: &Snap,
+        rv_post: &Report,
+    ) {
         if out.kind != OutKind::Ok {
             return;
         }
         ctx.stats.evaluations += 1;
-        let kind = ctx.oprec.op.kind();
         if vertex_identity(pre) != vertex_identity(post) {
             push_violation(
                 ctx.violations,
@@ -550,6 +564,55 @@ impl<K: SimKernel<D>, const D: usize> Monitor<K, D> for Valid {
         }
         if self.c07 {
             self.sweep_c07(ctx, post);
+        }
+        if self.c06 || self.c08 {
+            self.sweep_branches(ctx, post, &rv_post);
+        }
+    }
+}
+
+impl Valid {
+    /// Branching exploration: from the state just reached, try on clones what the history did not
+    /// - every vertex removed (C06), both manual repairs (C08) - and judge each like a history step.
+    fn sweep_branches<K: SimKernel<D>, const D: usize>(&self, ctx: &mut StepCtx<'_, K, D>, cur: &Snap, rv_cur: &Report) {
+        let Some(obj) = (match &ctx.oprec.op {
+            Op::CloneTo { target, .. } | Op::SaveLoad { target, .. } => Some(*target),
+            op => op.obj(),
+        }) else {
+            return;
+        };
+        let mut rng = crate::rng::Rng::sub(ctx.header.run_seed, "branches", ctx.oprec.idx);
+        if cur.verts.is_empty() || !rng.chance(1, 2) {
+            return;
+        }
+        let Some(base) = ctx.world.objs.get(obj).and_then(|o| o.as_ref()).cloned() else { return };
+        let mut ops: Vec<Op> = Vec::new();
+        if self.c06 {
+            let mut vs: Vec<u128> = cur.verts.iter().map(|v| v.uuid).collect();
+            rng.shuffle(&mut vs);
+            vs.truncate(if ctx.thorough { 24 } else { 8 });
+            ops.extend(vs.into_iter().map(|u| Op::Remove { obj, uuid: Hex128(u) }));
+        }
+        if self.c08 && !cur.cells.is_empty() {
+            ops.push(Op::Repair { obj });
+            ops.push(Op::RepairAdv { obj, seeds: None });
+        }
+        for (i, op) in ops.iter().enumerate() {
+            let mut c = base.clone();
+            let mut plan = ctx.plan(&[]);
+            plan.uuid_seed = crate::rng::derive(crate::rng::derive(ctx.header.run_seed, "branch-uuid", ctx.oprec.idx), "i", i as u64);
+            let o = run_mutator(&mut c, &plan, op);
+            ctx.stats.executions += 1;
+            *ctx.stats.outcome_classes.entry(format!("branch:{}:{}", op.kind(), o.class())).or_insert(0) += 1;
+            if o.kind != OutKind::Ok {
+                continue;
+            }
+            let post = Snap::of(&c);
+            let rv_post = refval::validate(&post, strength_of(&post), false);
+            match op {
+                Op::Remove { uuid, .. } => self.check_c06(ctx, cur, rv_cur, &o, &post, &rv_post, uuid.0),
+                _ => self.check_c08_as(ctx, op.kind(), cur, rv_cur, &o, &post, &rv_post),
+            }
         }
     }
 }
